@@ -99,10 +99,12 @@ def run_check(prop, tier):
         ubsan_first = None
         notes = []
         rejected_inputs = 0
+        hist_hashes = set()
         for job, agg in zip(jobs, results):
             if agg is None:
                 continue
             runs += agg['runs']
+            hist_hashes.update(h for h in agg.get('hashes', []) if h)
             rejected_inputs += agg.get('rejected', 0)
             if agg.get('info') and isinstance(agg['info'], dict) and agg['info'].get('rejected_init'):
                 rejected_inputs += 1
@@ -206,6 +208,8 @@ def run_check(prop, tier):
             'runs_per_hour': int(runs / max(wall, 1e-3) * 3600),
             'evaluations_per_hour': int(evaluations / max(wall, 1e-3) * 3600),
             'steps_total': steps,
+            'distinct_states': len(hist_hashes),
+            'distinct_states_measure': 'distinct 64-bit history hashes of completed runs (every step, return value, state digest and every byte written to the simulated disk enter the hash)',
             'simulated_time': 'n/a - nifly has no clock, timer or deadline; progress is counted in executed steps',
             'faults_fired': faults,
             'probes': probes,
